@@ -35,6 +35,8 @@ import (
 	"time"
 
 	quic "github.com/refraction-networking/uquic"
+	"github.com/refraction-networking/uquic/qlog"
+	"github.com/refraction-networking/uquic/qlogwriter"
 	u "github.com/refraction-networking/uquic/internal/verifutil"
 )
 
@@ -55,6 +57,8 @@ type sdCase struct {
 	EchoN   int
 	LateMs  int // > 0: keep the connection, wait that long after the echo, echo once more
 	Respec  []*quic.QUICSpec // one UTransport: the spec assigned to UTransport.QUICSpec before dial k
+	Trace   bool             // the client's Config carries a qlog Tracer (writing to nowhere)
+	Run     func(rep *sdReporter, c sdCase) // nil = runOneSimDial + judge
 }
 
 var sdSrvNames = []string{"default", "small-windows", "retry", "long-chain", "pkt1350", "idle-short", "v2-only"}
@@ -70,14 +74,17 @@ func (c sdCase) String() string {
 		env = fmt.Sprintf("one-transport(gap %dms)", c.GapMs)
 	}
 	late := ""
+	if c.Trace {
+		late = " client-qlog-tracer"
+	}
 	if c.LateMs > 0 {
-		late = fmt.Sprintf(" second-echo-after=%dms", c.LateMs)
+		late += fmt.Sprintf(" second-echo-after=%dms", c.LateMs)
 	}
 	return fmt.Sprintf("%s server=%s client=%s faults=[%s] dials=%d %s echo=%d%s", c.Name, sdSrvNames[c.Srv], sdCliNames[c.Cli], strings.Join(fs, " "), c.Dials, env, c.EchoN, late)
 }
 
-func sdOpts(c sdCase) simOpts {
-	o := simOpts{Faults: c.Faults, Spec: c.Spec, PlainPath: c.Plain}
+func sdOpts(c sdCase) (o simOpts) {
+	o = simOpts{Faults: c.Faults, Spec: c.Spec, PlainPath: c.Plain}
 	switch c.Srv {
 	case 1:
 		o.ServerConf = &quic.Config{InitialStreamReceiveWindow: 8 << 10, MaxStreamReceiveWindow: 16 << 10, InitialConnectionReceiveWindow: 12 << 10,
@@ -93,6 +100,14 @@ func sdOpts(c sdCase) simOpts {
 	case 6: // the client starts with version 1, is sent a Version Negotiation packet and builds a second connection (same Dial)
 		o.ServerConf = &quic.Config{Versions: []quic.Version{quic.Version2}}
 		o.ClientConf = &quic.Config{Versions: []quic.Version{quic.Version1, quic.Version2}}
+	}
+	if c.Trace {
+		defer func() {
+			if o.ClientConf == nil {
+				o.ClientConf = &quic.Config{}
+			}
+			o.ClientConf.Tracer = sdTracer
+		}()
 	}
 	if c.Srv == 6 {
 		return o
@@ -115,6 +130,18 @@ func sdGap(r *u.Rng) int {
 		return []int{0, 10, 40, 50, 90}[r.Intn(5)]
 	}
 	return sdLongGap
+}
+
+type sdDiscard struct{}
+
+func (sdDiscard) Write(p []byte) (int, error) { return len(p), nil }
+func (sdDiscard) Close() error                { return nil }
+
+// sdTracer: a real qlog trace whose output goes nowhere.
+func sdTracer(_ context.Context, isClient bool, connID quic.ConnectionID) qlogwriter.Trace {
+	fs := qlogwriter.NewConnectionFileSeq(sdDiscard{}, isClient, connID, []string{qlog.EventSchema})
+	go fs.Run()
+	return fs
 }
 
 type sdResult struct {
@@ -271,19 +298,18 @@ func runOneSimDial(c sdCase) (res []sdResult, leak string) {
 					res[k].Stale = sdStale(e, from)
 				}
 				e.Router.mu.Lock()
-				var first []byte
+				var sent [][]byte
 				for _, d := range e.Router.log[from:] {
 					if d.Dir == 0 {
-						if !res[k].Sent {
-							first = d.Data
-						}
+						sent = append(sent, d.Data)
 						res[k].Sent = true
 					}
 				}
 				e.Router.mu.Unlock()
-				if first != nil {
-					if pk, err := udOpen([][]byte{first}); err == nil && len(pk) > 0 {
+				for _, d := range sent { // the first datagram that holds an Initial packet (not a late packet of the previous connection)
+					if pk, err := udOpen([][]byte{d}); err == nil && len(pk) > 0 {
 						res[k].SCID = len(pk[0].SCID)
+						break
 					}
 				}
 			}
@@ -388,7 +414,8 @@ func (rep *sdReporter) judgeRespec(c sdCase, res []sdResult, leak string) {
 		sp := c.Respec[k]
 		what := fmt.Sprintf("dial#%d with %s", k+1, []string{"spec A", "spec B"}[min(k, 1)])
 		switch {
-		case r.Phase == "handshake" && !r.Sent:
+		case r.Phase == "handshake" && (!r.Sent || strings.Contains(r.Err, "invalid QUICSpec")):
+			// (on one transport "sent" may be a late datagram of the previous connection)
 			rep.dist["respec refused up front"]++
 			if k == 0 {
 				rep.fail(base+"handshake", what+": refused although nothing was dialled before: "+r.Err, c.String())
@@ -491,7 +518,7 @@ func runSimDial(w *bufio.Writer, seed uint64, n int, args []string) {
 			fmt.Fprintf(w, "MONFAIL\tsimdial/panic\t%v\t\n", p)
 		}
 	}()
-	only, family := "", ""
+	only, family, skip := "", "", 0
 	for _, a := range args {
 		if strings.HasPrefix(a, "only=") {
 			only = a[5:]
@@ -499,125 +526,74 @@ func runSimDial(w *bufio.Writer, seed uint64, n int, args []string) {
 		if strings.HasPrefix(a, "family=") {
 			family = a[7:]
 		}
+		if strings.HasPrefix(a, "skip=") {
+			fmt.Sscanf(a, "skip=%d", &skip)
+		}
 	}
-	thorough := os.Getenv("VERIF_TIER") == "thorough"
-	nCases := 0
-	emit := func(c sdCase) {
-		if os.Getenv("VERIF_SD_TRACE") != "" {
-			fmt.Fprintf(w, "START\t%s\t%s\n", c.Q, c.String())
-			w.Flush()
+	if family == "" {
+		// The parent runs no connection itself: an unrecovered panic in a goroutine of a real
+		// connection kills the process it happens in. Every family runs in a child process
+		// (this binary again); when a child dies, the scenario it had started is reported and the
+		// family is resumed behind it.
+		type fam struct {
+			name, only string
+			n          int
 		}
-		res, leak := runOneSimDial(c)
-		rep.judge(c, res, leak)
-		nt := 0
-		if len(c.Faults) > 0 || c.Srv != 0 {
-			nt = 1
+		fams := []fam{{"matrix", only, 0}, {"builtin", only, n}}
+		if only == "" {
+			fams = append(fams, fam{"derived", "", n}, fam{"retx", "", 8 + n/5}, fam{"fixed-split", "", 6 + n/10})
+			for _, q := range append(append([]string{}, parrotNames...), "nil-spec", "plain") {
+				fams = append(fams, fam{"late-dup", q, 0})
+			}
+			fams = append(fams, fam{"respec", "", 20 + n/5}, fam{"nilspec", "", 10 + n/5})
 		}
-		fmt.Fprintf(w, "CASE %d %s\n", nt, c.String())
-		if nCases < 3 {
-			fmt.Fprintf(w, "SAMPLE\t%s -> %+v\n", c.String(), res)
+		for _, f := range fams {
+			sdChildOnly(w, rep, seed, f.name, f.only, f.n)
 		}
-		nCases++
-		if c.Spec != nil && c.Kind != "" {
-			udSpecDist(rep.dist, c.Spec)
-		}
-		rep.dist["server="+sdSrvNames[c.Srv]]++
-		rep.dist[fmt.Sprintf("faults=%d", len(c.Faults))]++
-	}
-	if family != "" {
-		sdFamily(r, family, only, n, emit)
 		for k, v := range rep.dist {
 			fmt.Fprintf(w, "DIST\t%s\t%d\n", k, v)
 		}
 		return
 	}
-	// --- A: every built-in QUICID ---------------------------------------------------------
-	perID := 5 + n/20
-	if thorough {
-		perID = 12 + n/20
-	}
-	for _, name := range parrotNames {
-		if only != "" && only != name {
-			continue
+	// ---- child: one family -------------------------------------------------------------
+	nCases := 0
+	emit := func(c sdCase) {
+		idx := nCases
+		nCases++
+		if idx < skip {
+			return // generated (the random stream advances), run by an earlier child
 		}
-		for i := 0; i < perID; i++ {
-			rr := r.Fork()
-			sp, err := specFor(name)
-			if err != nil {
-				rep.fail("simdial/"+name+"/handshake", err.Error(), name)
-				break
-			}
-			c := sdCase{Name: name, Q: name, Spec: sp, Dials: 3, EchoN: 20000, SameEnv: i%2 == 1, GapMs: sdGap(rr)}
-			if i > 0 {
-				c.Faults = sdGenFaults(rr)
-				c.Srv = []int{0, 0, 1, 2, 3, 4, 5, 6}[rr.Intn(8)]
-				c.Cli = []int{0, 0, 1, 2}[rr.Intn(4)]
-			}
-			emit(c)
-			rep.dist["builtin"]++
+		if c.Srv == 6 {
+			// (with a Version Negotiation the first connection's qlog trace is never closed -- for
+			// every kind of client, the plain Transport included -- so the trace's writer goroutine
+			// would be reported as a leak; not this property's subject)
+			c.Trace = false
 		}
-	}
-	// --- B: derived specs -----------------------------------------------------------------
-	for i := 0; i < n && only == ""; i++ {
-		rr := r.Fork()
-		base := parrotNames[rr.Intn(len(parrotNames))]
-		kind := udDerivedKinds[i%len(udDerivedKinds)]
-		d, err := udDerive(rr, base, kind)
-		if err != nil {
-			rep.fail("simdial/derived/"+kind, err.Error(), base)
-			continue
-		}
-		c := sdCase{Name: d.Desc, Q: base, Kind: kind, Spec: d.Spec, Dials: 3, EchoN: 20000, SameEnv: rr.Bool(), GapMs: sdGap(rr)}
-		c.Faults = sdGenFaults(rr)
-		c.Srv = []int{0, 0, 0, 1, 2, 3, 4, 5, 6}[rr.Intn(9)]
-		c.Cli = []int{0, 0, 1, 2}[rr.Intn(4)]
-		emit(c)
-		rep.dist["derived "+kind]++
-	}
-	// --- D: directed families ---------------------------------------------------------------
-	if only == "" {
-		// An unrecovered panic inside a connection's run loop would kill this process, so the two
-		// directed families run in a child each:
-		// lost Initial datagrams of a flight cut into many small datagrams (retransmission paths),
-		sdChild(w, rep, seed, "retx", 8+n/5)
-		// a fixed QUICFrames layout that cuts its slice at an offset
-		sdChild(w, rep, seed, "fixed-split", 6+n/10)
-		// a datagram of the server's first flights delivered a second time one to several round
-		// trips later (behind HANDSHAKE_DONE): one child per client kind, so that a crash of one
-		// does not hide the others
-		for _, q := range append(append([]string{}, parrotNames...), "nil-spec", "plain") {
-			sdChildOnly(w, rep, seed, "late-dup", q, 0)
-		}
-		// one UTransport, another spec for the next dial
-		sdRespec(r.Fork(), 20+n/5, emit)
-	}
-	// --- C: nil spec == plain Transport ---------------------------------------------------
-	nNil := 10 + n/5
-	for i := 0; i < nNil && only == ""; i++ {
-		rr := r.Fork()
-		c := sdCase{Name: "UTransport{QUICSpec:nil}", Q: "nil-spec", Dials: 2, EchoN: 20000, SameEnv: rr.Bool(), GapMs: sdGap(rr)}
-		if i > 0 {
-			c.Faults = sdGenFaults(rr)
-			c.Srv = rr.Intn(len(sdSrvNames))
-			c.Cli = rr.Intn(len(sdCliNames))
-		}
-		resU, leakU := runOneSimDial(c)
-		p := c
-		p.Plain, p.Name = true, "Transport"
-		resP, leakP := runOneSimDial(p)
-		for k := range resU {
-			if (resU[k].Phase == "") != (resP[k].Phase == "") {
-				rep.fail("simdial/nil-spec/behaviour", fmt.Sprintf("dial#%d: UTransport with a nil spec: %+v, plain Transport: %+v", k+1, resU[k], resP[k]), c.String())
-			} else if resU[k].Phase != "" {
-				rep.fail("simdial/nil-spec/handshake", fmt.Sprintf("dial#%d fails on both paths: %+v / %+v", k+1, resU[k], resP[k]), c.String())
+		fmt.Fprintf(w, "START\t%d\t%s\t%s\n", idx, c.Q, c.String())
+		w.Flush()
+		if c.Run != nil {
+			c.Run(rep, c)
+		} else {
+			res, leak := runOneSimDial(c)
+			rep.judge(c, res, leak)
+			if idx < 3 && family == "builtin" {
+				fmt.Fprintf(w, "SAMPLE\t%s -> %+v\n", c.String(), res)
 			}
 		}
-		if leakU != "" || leakP != "" {
-			rep.fail("simdial/nil-spec/leak-or-panic", leakU+" / "+leakP, c.String())
+		nt := 0
+		if len(c.Faults) > 0 || c.Srv != 0 {
+			nt = 1
 		}
-		fmt.Fprintf(w, "CASE 1 nil-spec-vs-plain %s\n", c.String())
-		rep.dist["nil-spec"]++
+		fmt.Fprintf(w, "CASE %d %s\n", nt, c.String())
+		if c.Spec != nil && c.Kind != "" {
+			udSpecDist(rep.dist, c.Spec)
+		}
+		rep.dist["server="+sdSrvNames[c.Srv]]++
+		rep.dist[fmt.Sprintf("faults=%d", len(c.Faults))]++
+		rep.dist["family "+family]++
+		w.Flush()
 	}
+	sdFamily(r, family, only, n, emit)
 	for k, v := range rep.dist {
 		fmt.Fprintf(w, "DIST\t%s\t%d\n", k, v)
 	}
@@ -628,8 +604,129 @@ func runSimDial(w *bufio.Writer, seed uint64, n int, args []string) {
 	}
 }
 
+// sdBuiltin: every built-in QUICID, random schedules and configurations.
+func sdBuiltin(r *u.Rng, only string, n int, emit func(sdCase)) {
+	perID := 5 + n/20
+	if os.Getenv("VERIF_TIER") == "thorough" {
+		perID = 12 + n/20
+	}
+	for _, name := range parrotNames {
+		for i := 0; i < perID; i++ {
+			rr := r.Fork()
+			if only != "" && only != name {
+				continue
+			}
+			sp, err := specFor(name)
+			if err != nil {
+				break
+			}
+			c := sdCase{Name: name, Q: name, Spec: sp, Dials: 3, EchoN: 20000, SameEnv: i%2 == 1, GapMs: sdGap(rr)}
+			if i > 0 {
+				c.Faults = sdGenFaults(rr)
+				c.Srv = []int{0, 0, 1, 2, 3, 4, 5, 6}[rr.Intn(8)]
+				c.Cli = []int{0, 0, 1, 2}[rr.Intn(4)]
+				c.Trace = rr.Chance(1, 4)
+			}
+			emit(c)
+		}
+	}
+}
+
+// sdMatrix: the fixed table, the same for every seed: {each built-in parrot, nil spec, plain} x
+// {server with Retry (VerifySourceAddress), without} x {client with a qlog tracer, without},
+// no faults, two dials of the same spec value.
+func sdMatrix(only string, emit func(sdCase)) {
+	for _, q := range append(append([]string{}, parrotNames...), "nil-spec", "plain") {
+		if only != "" && only != q {
+			continue
+		}
+		for _, srv := range []int{0, 2} {
+			for _, trace := range []bool{false, true} {
+				c := sdCase{Name: q, Q: q, Dials: 2, EchoN: 20000, Srv: srv, Trace: trace}
+				switch q {
+				case "nil-spec":
+					c.Name = "UTransport{QUICSpec:nil}"
+				case "plain":
+					c.Name, c.Plain = "Transport", true
+				default:
+					sp, err := specFor(q)
+					if err != nil {
+						continue
+					}
+					c.Spec = sp
+				}
+				emit(c)
+			}
+		}
+	}
+}
+
+// sdDerived: derived specs.
+func sdDerived(r *u.Rng, n int, emit func(sdCase)) {
+	for i := 0; i < n; i++ {
+		rr := r.Fork()
+		base := parrotNames[rr.Intn(len(parrotNames))]
+		kind := udDerivedKinds[i%len(udDerivedKinds)]
+		d, err := udDerive(rr, base, kind)
+		if err != nil {
+			continue
+		}
+		c := sdCase{Name: d.Desc, Q: base, Kind: kind, Spec: d.Spec, Dials: 3, EchoN: 20000, SameEnv: rr.Bool(), GapMs: sdGap(rr)}
+		c.Faults = sdGenFaults(rr)
+		c.Srv = []int{0, 0, 0, 1, 2, 3, 4, 5, 6}[rr.Intn(9)]
+		c.Cli = []int{0, 0, 1, 2}[rr.Intn(4)]
+		c.Trace = rr.Chance(1, 5)
+		emit(c)
+	}
+}
+
+// sdNilSpec: UTransport{QUICSpec: nil} against plain Transport, same outcome.
+func sdNilSpec(r *u.Rng, n int, emit func(sdCase)) {
+	for i := 0; i < n; i++ {
+		rr := r.Fork()
+		c := sdCase{Name: "nil-spec-vs-plain UTransport{QUICSpec:nil}", Q: "nil-spec", Dials: 2, EchoN: 20000, SameEnv: rr.Bool(), GapMs: sdGap(rr)}
+		if i > 0 {
+			c.Faults = sdGenFaults(rr)
+			c.Srv = rr.Intn(len(sdSrvNames))
+			c.Cli = rr.Intn(len(sdCliNames))
+			c.Trace = rr.Chance(1, 4)
+		}
+		c.Run = func(rep *sdReporter, c sdCase) {
+			resU, leakU := runOneSimDial(c)
+			p := c
+			p.Plain, p.Name = true, "Transport"
+			resP, leakP := runOneSimDial(p)
+			for k := range resU {
+				if (resU[k].Phase == "") != (resP[k].Phase == "") {
+					rep.fail("simdial/nil-spec/behaviour", fmt.Sprintf("dial#%d: UTransport with a nil spec: %+v, plain Transport: %+v", k+1, resU[k], resP[k]), c.String())
+				} else if resU[k].Phase != "" {
+					rep.fail("simdial/nil-spec/handshake", fmt.Sprintf("dial#%d fails on both paths: %+v / %+v", k+1, resU[k], resP[k]), c.String())
+				}
+			}
+			if leakU != "" || leakP != "" {
+				rep.fail("simdial/nil-spec/leak-or-panic", leakU+" / "+leakP, c.String())
+			}
+		}
+		emit(c)
+	}
+}
+
 // sdFamily: directed case families (also the entry point of the child process).
 func sdFamily(r *u.Rng, family, only string, n int, emit func(sdCase)) {
+	switch family {
+	case "matrix":
+		sdMatrix(only, emit)
+		return
+	case "builtin":
+		sdBuiltin(r, only, n, emit)
+		return
+	case "derived":
+		sdDerived(r, n, emit)
+		return
+	case "nilspec":
+		sdNilSpec(r, n, emit)
+		return
+	}
 	if family == "late-dup" {
 		sdLateDup(r, only, emit)
 		return
@@ -693,54 +790,75 @@ func sdFamily(r *u.Rng, family, only string, n int, emit func(sdCase)) {
 	}
 }
 
-// sdChild runs one family in a child process and relays its lines; a crash of the child (a
+// sdChildOnly runs one family in a child process and relays its lines. A crash of the child (a
 // panic in one of the connection's own goroutines cannot be recovered from outside) becomes a
-// monitor failure carrying the last case that was started.
-func sdChild(w *bufio.Writer, rep *sdReporter, seed uint64, family string, n int) {
-	sdChildOnly(w, rep, seed, family, "", n)
-}
-
+// monitor failure carrying the scenario that was running; the family is then resumed behind
+// that scenario in a new child.
 func sdChildOnly(w *bufio.Writer, rep *sdReporter, seed uint64, family, only string, n int) {
-	cmd := exec.Command(os.Args[0], "simdial", fmt.Sprint(seed), fmt.Sprint(n), "family="+family, "only="+only)
-	cmd.Env = append(os.Environ(), "VERIF_SD_TRACE=1")
-	var out, errb bytes.Buffer
-	cmd.Stdout, cmd.Stderr = &out, &errb
-	err := cmd.Run()
-	last, lastQ := "", ""
-	for _, ln := range strings.Split(out.String(), "\n") {
-		switch {
-		case strings.HasPrefix(ln, "START\t"):
-			if f := strings.SplitN(ln, "\t", 3); len(f) == 3 {
-				lastQ, last = f[1], f[2]
+	skip := 0
+	for restart := 0; restart < 8; restart++ {
+		cmd := exec.Command(os.Args[0], "simdial", fmt.Sprint(seed), fmt.Sprint(n), "family="+family, "only="+only, fmt.Sprintf("skip=%d", skip))
+		cmd.Env = os.Environ()
+		var out, errb bytes.Buffer
+		cmd.Stdout, cmd.Stderr = &out, &errb
+		err := cmd.Run()
+		last, lastQ, lastIdx := "", "", -1
+		for _, ln := range strings.Split(out.String(), "\n") {
+			switch {
+			case strings.HasPrefix(ln, "START\t"):
+				if f := strings.SplitN(ln, "\t", 4); len(f) == 4 {
+					fmt.Sscanf(f[1], "%d", &lastIdx)
+					lastQ, last = f[2], f[3]
+				}
+			case strings.HasPrefix(ln, "DIST\t"):
+				if f := strings.Split(ln, "\t"); len(f) == 3 {
+					var v int
+					fmt.Sscanf(f[2], "%d", &v)
+					rep.dist[f[1]] += v
+				}
+			case strings.HasPrefix(ln, "CASE ") || strings.HasPrefix(ln, "MONFAIL\t") || strings.HasPrefix(ln, "SAMPLE\t") || strings.HasPrefix(ln, "INFO\t"):
+				fmt.Fprintln(w, ln)
 			}
-		case strings.HasPrefix(ln, "CASE ") || strings.HasPrefix(ln, "MONFAIL\t") || strings.HasPrefix(ln, "DIST\t"):
-			fmt.Fprintln(w, ln)
 		}
-	}
-	rep.dist["child family "+family]++
-	if err != nil {
+		if err == nil {
+			return
+		}
 		first := ""
-		for _, ln := range strings.Split(errb.String(), "\n") {
-			if strings.HasPrefix(ln, "panic:") || strings.HasPrefix(ln, "fatal error:") {
-				first = ln
-				break
-			}
-		}
 		var where []string
 		for _, ln := range strings.Split(errb.String(), "\n") {
-			if strings.Contains(ln, "uquic.") && !strings.Contains(ln, "verifdrv") && len(where) < 4 {
+			if first == "" && (strings.HasPrefix(ln, "panic:") || strings.HasPrefix(ln, "fatal error:")) {
+				first = ln
+			}
+			if strings.HasPrefix(ln, "[signal ") {
+				first += " " + ln
+			}
+			if strings.Contains(ln, "uquic") && strings.Contains(ln, "(") && !strings.HasPrefix(ln, "\t") && !strings.Contains(ln, "verifdrv") && len(where) < 5 {
 				fn := strings.TrimSpace(ln)
 				if i := strings.LastIndex(fn, "("); i > 0 {
 					fn = fn[:i]
 				}
-				where = append(where, strings.TrimPrefix(fn, "github.com/refraction-networking/uquic."))
+				where = append(where, strings.TrimPrefix(fn, "github.com/refraction-networking/uquic"))
 			}
 		}
-		key := "simdial/derived/" + family + "-panic"
-		if family == "late-dup" {
-			key = "simdial/" + lastQ + "/late-handshake-duplicate"
+		if first == "" {
+			first = strings.TrimSpace(errb.String())
+			if len(first) > 300 {
+				first = first[:300]
+			}
 		}
-		rep.fail(key, fmt.Sprintf("the client process dies while dialling (%v): %s in %s", err, first, strings.Join(where, " <- ")), last)
+		key := "simdial/panic"
+		switch family {
+		case "late-dup":
+			key = "simdial/" + lastQ + "/late-handshake-duplicate"
+		case "retx", "fixed-split":
+			key = "simdial/derived/" + family + "-panic"
+		}
+		rep.fail(key, fmt.Sprintf("the client process dies while running this scenario (%v): %s in %s", err, first, strings.Join(where, " <- ")), last)
+		rep.dist["child crashed: family "+family]++
+		if lastIdx < 0 {
+			return // died before the first scenario: nothing to resume behind
+		}
+		skip = lastIdx + 1
 	}
 }
 
